@@ -48,7 +48,7 @@ for pid in sorted(TITLES):
         na.append(dict(property_id=pid, reason="harness under construction in this session (the property is reachable by the technique, see DESIGN.md); not claimed until its check is committed"))
 man = dict(
     version=1,
-    setup_cmd="python3-vt -m compileall -q symx symtorch harness replay driver.py && python3-vt selftest.py",
+    setup_cmd="python3-vt -m compileall -q symx symtorch harness replay validate driver.py && python3-vt selftest.py && python3-vt validate/run.py",
     hooks=dict(guard="TORCHJD_VERIF", enable="no hooks: observation happens in the environment model /verif/symtorch (nothing in /repo is instrumented)",
                baseline_off_cmd="cd /repo && /venv/bin/python -m pytest -ra -q -p no:cacheprovider --timeout=900 --continue-on-collection-errors", source_commits=[], add_only=True),
     engines=[dict(name="symx", path="symx/", serves_properties=[c["property_id"] for c in checks],
